@@ -1,3 +1,5 @@
+//go:build race
+
 package main
 
 // Baton passing between the scheduler goroutine and the task goroutines.
